@@ -196,6 +196,7 @@ class Evaluator:
         self.trace: list = []
         self.heap: dict = {}              # object id -> {'cls': name, 'attrs': {name: AV}}
         self.functions: dict = {}         # module-level functions callable by bare name: name -> ast.FunctionDef
+        self.class_table: dict = {}       # class name -> {'mro': [names], 'attrs': {name: expr}, 'methods': {name: FunctionDef}}
         self.strict_sets = False          # sets are sets: no duplicates, and their iteration order is not known
         self.classes: dict = {}           # class name -> {method name: ast.FunctionDef} for heap objects of further classes
 
@@ -512,6 +513,72 @@ class Evaluator:
     def obj_attrs(self, v: AV) -> dict:
         return self.heap[v.val[1]]['attrs']
 
+    def _args(self, node: ast.Call, env) -> list:
+        out = []
+        for a in node.args:
+            if isinstance(a, ast.Starred):
+                v = self.ordered(self.ev(a.value, env))
+                if v.items is None:
+                    raise Unknown('* of a collection of unknown contents')
+                out.extend(v.items)
+            else:
+                out.append(self.ev(a, env))
+        return out
+
+    def _from_python(self, r) -> AV:
+        if isinstance(r, tuple):
+            return AV('tuple', items=tuple(self._from_python(x) for x in r))
+        if isinstance(r, list):
+            return AV('list', items=tuple(self._from_python(x) for x in r))
+        if isinstance(r, dict):
+            return AV('dict', items=tuple(AV('tuple', items=(self._from_python(k), self._from_python(v))) for k, v in r.items()))
+        return const_av(r)
+
+    def _regex_flags(self, node) -> int:
+        import re as _re
+        flags = 0
+        for nm in ast.walk(node):
+            if isinstance(nm, ast.Attribute) and hasattr(_re, nm.attr):
+                flags |= getattr(_re, nm.attr)
+        return flags
+
+    def _pattern(self, node, env):
+        """(pattern text, flags) of a pattern argument: a constant, a text built from constants, or a compiled pattern"""
+        if isinstance(node, ast.Constant) and isinstance(node.value, str):
+            return node.value, 0
+        v = self.ev(node, env)
+        if v.kind == 'regex':
+            return v.val[1], v.val[2]
+        if v.kind == 'str' and isinstance(v.val, str):
+            return v.val, 0
+        raise Unknown('a pattern that is not a known text')
+
+    def _regex_call(self, how: str, pat: str, flags: int, args: list) -> AV:
+        import re as _re
+        try:
+            rx = _re.compile(pat, flags)
+        except _re.error as e_:
+            raise AbsRaise('re.error', str(e_))
+        subj = args[-1] if how != 'sub' else (args[1] if len(args) > 1 else None)
+        if subj is None:
+            raise Unknown('regex call without a subject')
+        if subj.kind != 'str':
+            raise AbsRaise('TypeError', 'expected string or bytes-like object')
+        if not isinstance(subj.val, str):
+            raise Unknown('regex on a text without a concrete carrier')
+        if how == 'findall':
+            return self._from_python(rx.findall(subj.val))
+        if how in ('match', 'fullmatch', 'search'):
+            m_ = getattr(rx, how)(subj.val)
+            return AV('other', val=('match', how, m_)) if m_ else AV('none')
+        if how == 'finditer':
+            return AV('list', items=tuple(AV('other', val=('match', how, m_)) for m_ in rx.finditer(subj.val)))
+        if how == 'split':
+            return self._from_python(rx.split(subj.val))
+        if how == 'sub' and isinstance(args[0].val, str):
+            return const_av(rx.sub(args[0].val, subj.val))
+        raise Unknown(f're.{how}')
+
     def make_set(self, items) -> AV:
         if not self.strict_sets:
             return AV('list', items=tuple(items))
@@ -550,8 +617,46 @@ class Evaluator:
 
     def class_method(self, obj, name: str):
         if obj is not None and obj.kind == 'obj' and isinstance(obj.val, tuple):
-            return self.classes.get(obj.val[2], {}).get(name)
+            got = self.classes.get(obj.val[2], {}).get(name)
+            if got is None and obj.val[2] in self.class_table:
+                hit = self.class_lookup(obj.val[2], name)
+                if hit is not None and hit[0] == 'method':
+                    return hit[1]
+            return got
         return None
+
+    # ---- classes of the repository as values: attributes and methods are found along the MRO -------------------
+    def is_class_value(self, v: AV) -> bool:
+        return v.kind == 'other' and isinstance(v.val, tuple) and len(v.val) >= 2 and v.val[0] in ('class', 'name') and \
+            v.val[1] in self.class_table
+
+    def class_lookup(self, cname: str, attr: str):
+        for k in self.class_table[cname]['mro']:
+            e = self.class_table.get(k)
+            if e is None:
+                continue
+            if attr in e['methods']:
+                return ('method', e['methods'][attr], k)
+            if attr in e['attrs']:
+                return ('attr', e['attrs'][attr], k)
+        return None
+
+    def call_class_func(self, fn: ast.FunctionDef, cls_av: AV, args: list, kwargs: dict | None = None) -> AV:
+        decos = {d.id for d in fn.decorator_list if isinstance(d, ast.Name)}
+        if 'staticmethod' in decos:
+            return self.call_function(fn, list(args), kwargs)
+        if 'classmethod' in decos:
+            return self.call_function(fn, [cls_av] + list(args), kwargs)
+        return self.call_function(fn, list(args), kwargs)          # a plain function reached through the class
+
+    def construct(self, cname: str, args: list, kwargs: dict | None = None) -> AV:
+        obj = self.new_obj(cname, {})
+        hit = self.class_lookup(cname, '__init__')
+        if hit is not None and hit[0] == 'method':
+            self.call_function(hit[1], [obj] + list(args), kwargs)
+        elif args or kwargs:
+            raise AbsRaise('TypeError', f'{cname}() takes no arguments')
+        return obj
 
     def call_bound(self, fn: ast.FunctionDef, obj: AV, args: list, kwargs: dict | None = None) -> AV:
         static = any(isinstance(d, ast.Name) and d.id == 'staticmethod' for d in fn.decorator_list)
@@ -641,13 +746,23 @@ class Evaluator:
                 if di < 0:
                     raise AbsRaise('TypeError', f'{fn.name}() missing {p}')
                 env[p] = self.ev(defaults[di], {})
+        if fn.args.vararg is not None:
+            env[fn.args.vararg.arg] = AV('tuple', items=tuple(args[len(params):]))
+        elif len(args) > len(params):
+            raise AbsRaise('TypeError', f'{fn.name}() takes {len(params)} positional arguments but {len(args)} were given')
+        if fn.args.kwarg is not None:
+            env[fn.args.kwarg.arg] = AV('dict', items=tuple(AV('tuple', items=(const_av(k_), v_)) for k_, v_ in kwargs.items() if k_ not in params))
         self.depth += 1
+        if not hasattr(self, '_fn_stack'):
+            self._fn_stack = []
+        self._fn_stack.append(fn)
         try:
             self.exec_block(fn.body, env)
             return AV('none')
         except _Ret as r:
             return r.v
         finally:
+            self._fn_stack.pop()
             self.depth -= 1
 
     def call_value(self, f: AV, args: list) -> AV:
@@ -754,14 +869,36 @@ class Evaluator:
                     return self.ev(cc[node.attr], {})            # a class-level constant of the copy
                 except Unknown:
                     return AV('other', val=('name', 'self.' + node.attr))     # an opaque named object (a sentinel, ...)
-            if txt in ('datetime.date', 'datetime.datetime', 'self.EmptyCell', 'self.__class__', 'date_parser.ParserError'):
+            if txt in ('datetime.date', 'datetime.datetime', 'self.EmptyCell', 'self.__class__', 'date_parser.ParserError') and \
+                    not (txt == 'self.__class__' and 'self' in env and env['self'].kind == 'obj' and env['self'].val[2] in self.class_table):
                 return AV('other', val=('class', {'datetime.date': 'date', 'datetime.datetime': 'datetime',
                                                   'self.EmptyCell': 'EmptyCell', 'self.__class__': 'EmptyCell'}.get(txt, txt)))
+            if txt == 'self.__class__' and 'self' in env and env['self'].kind == 'obj':
+                return AV('other', val=('class', env['self'].val[2]))
             v = self.ev(base, env)
+            if self.is_class_value(v):
+                if node.attr == '__name__':
+                    return const_av(v.val[1])
+                hit_ = self.class_lookup(v.val[1], node.attr)
+                if hit_ is None:
+                    raise AbsRaise('AttributeError', f'type object {v.val[1]} has no attribute {node.attr}')
+                if hit_[0] == 'attr':
+                    try:
+                        return self.ev(hit_[1], {})
+                    except Unknown:
+                        return AV('other', val=('name', f'{v.val[1]}.{node.attr}'))
+                return AV('func', val=('native', lambda a, fn_=hit_[1], c_=AV('other', val=('class', v.val[1])): self.call_class_func(fn_, c_, a)))
             if v.kind == 'obj':
                 at = self.obj_attrs(v)
                 if node.attr in at:
                     return at[node.attr]
+                if v.val[2] in self.class_table and self.class_method(v, node.attr) is None:
+                    hit_ = self.class_lookup(v.val[2], node.attr)
+                    if hit_ is not None and hit_[0] == 'attr':         # a class-level attribute read through the instance
+                        try:
+                            return self.ev(hit_[1], {})
+                        except Unknown:
+                            return AV('other', val=('name', f'{v.val[2]}.{node.attr}'))
                 cm_ = self.class_method(v, node.attr)
                 if cm_ is not None:
                     if any(isinstance(d, ast.Name) and d.id in ('property', 'cached_property') for d in cm_.decorator_list):
@@ -831,10 +968,20 @@ class Evaluator:
                     if r is None and isinstance(node.op, (ast.FloorDiv, ast.Mod)) and isinstance(a.val, int) and \
                             isinstance(b.val, int) and b.val != 0:
                         r = a.val // b.val if isinstance(node.op, ast.FloorDiv) else a.val % b.val
+                    if r is None and isinstance(node.op, ast.Pow) and abs(b.val) <= 400 and abs(a.val) <= 10 ** 6:
+                        if a.val == 0 and b.val < 0:
+                            raise AbsRaise('ZeroDivisionError', '0 to a negative power')
+                        r = a.val ** b.val
+                        if isinstance(r, complex):
+                            r = None
                     if r is not None:
                         return const_av(r)
+                except AbsRaise:
+                    raise
                 except Exception:
                     pass
+            if a.kind == 'str' and b.kind == 'str' and isinstance(a.val, str) and isinstance(b.val, str) and isinstance(node.op, ast.Add):
+                return const_av(a.val + b.val)
             raise Unknown('arithmetic')
         if isinstance(node, ast.NamedExpr):
             v_ = self.ev(node.value, env)
@@ -1038,6 +1185,8 @@ class Evaluator:
             return const_av(any(is_instance(v, c) for c in self._class_names(node.args[1], env)))
         if name == 'type' and len(node.args) == 1:
             v = self.ev(node.args[0], env)
+            if v.kind == 'obj' and isinstance(v.val, tuple):
+                return AV('other', val=('class', v.val[2]))
             return AV('other', val=('class', type_name(v)))
         if name == 'int':
             v0 = self.ev(node.args[0], env)
@@ -1047,8 +1196,21 @@ class Evaluator:
                 except ValueError:
                     raise AbsRaise('ValueError', f'int({v0.val!r})')
             return to_int(v0)
+        if name == 'repr' and len(node.args) == 1:
+            v0 = self.ev(node.args[0], env)
+            if v0.kind == 'none':
+                return const_av('None')
+            if v0.val is not None and not isinstance(v0.val, tuple):
+                return const_av(repr(v0.val))
+            raise Unknown('repr of a value without a concrete carrier')
         if name == 'float':
-            return to_float(self.ev(node.args[0], env))
+            v0 = self.ev(node.args[0], env)
+            if v0.kind == 'str' and isinstance(v0.val, str):
+                try:
+                    return const_av(float(v0.val))
+                except ValueError:
+                    raise AbsRaise('ValueError', f'float({v0.val!r})')
+            return to_float(v0)
         if name == 'str':
             v0 = self.ev(node.args[0], env)
             if v0.kind in ('int', 'float', 'bool') and v0.val is not None:
@@ -1223,6 +1385,48 @@ class Evaluator:
                 raise Unknown('relativedelta')
             return AV('timedelta', val=('rel', kw['years'].val if 'years' in kw else 0, kw['months'].val if 'months' in kw else 0,
                                         kw['days'].val if 'days' in kw else 0))
+        if self.class_table and isinstance(f, ast.Name) and ((f.id in env and self.is_class_value(env[f.id])) or
+                                                             (f.id not in env and f.id in self.class_table)):
+            cname_ = env[f.id].val[1] if f.id in env else f.id
+            return self.construct(cname_, self._args(node, env), {k.arg: self.ev(k.value, env) for k in node.keywords if k.arg})
+        if self.class_table and isinstance(f, ast.Attribute) and isinstance(f.value, ast.Call) and isinstance(f.value.func, ast.Name) and \
+                f.value.func.id == 'super' and not f.value.args and getattr(self, '_fn_stack', None):
+            me_ = env.get('self') if 'self' in env else env.get('cls')
+            cur_ = self._fn_stack[-1]
+            cname_ = me_.val[2] if me_ is not None and me_.kind == 'obj' else me_.val[1] if me_ is not None and self.is_class_value(me_) else None
+            if cname_ is None or cname_ not in self.class_table:
+                raise Unknown('super() outside a modelled class')
+            mro_ = self.class_table[cname_]['mro']
+            owner_ = next((k for k in mro_ if k in self.class_table and self.class_table[k]['methods'].get(cur_.name) is cur_), None)
+            if owner_ is None:
+                raise Unknown('super(): the defining class was not found')
+            for k in mro_[mro_.index(owner_) + 1:]:
+                e_ = self.class_table.get(k)
+                if e_ is not None and f.attr in e_['methods']:
+                    fn_ = e_['methods'][f.attr]
+                    static_ = any(isinstance(d, ast.Name) and d.id == 'staticmethod' for d in fn_.decorator_list)
+                    first_ = [] if static_ else [AV('other', val=('class', cname_))] if any(
+                        isinstance(d, ast.Name) and d.id == 'classmethod' for d in fn_.decorator_list) else [me_]
+                    return self.call_function(fn_, first_ + self._args(node, env),
+                                              {k_.arg: self.ev(k_.value, env) for k_ in node.keywords if k_.arg})
+            if f.attr == '__init__':
+                return AV('none')             # object.__init__
+            raise AbsRaise('AttributeError', f'super() has no attribute {f.attr}')
+        if self.class_table and isinstance(f, ast.Attribute):
+            try:
+                recv_ = self.ev(f.value, env) if not (isinstance(f.value, ast.Name) and f.value.id in ('re', 'datetime', 'math', 'calendar', 'operator')) else None
+            except Unknown:
+                recv_ = None
+            if recv_ is not None and self.is_class_value(recv_):
+                hit_ = self.class_lookup(recv_.val[1], f.attr)
+                if hit_ is None or hit_[0] != 'method':
+                    if f.attr == '__subclasses__':
+                        raise Unknown('__subclasses__')
+                    raise AbsRaise('AttributeError', f'type object {recv_.val[1]} has no method {f.attr}')
+                res_ = self.call_class_func(hit_[1], AV('other', val=('class', recv_.val[1])), self._args(node, env),
+                                            {k.arg: self.ev(k.value, env) for k in node.keywords if k.arg})
+                self._write_back(node, env)
+                return res_
         if isinstance(f, ast.Attribute):
             # self.method(...)
             if isinstance(f.value, ast.Name) and f.value.id == 'cls' and f.attr in self.members:
@@ -1276,36 +1480,15 @@ class Evaluator:
                         raise AbsRaise(type(e_).__name__, str(e_))
                     return AV('datetime', val=('ymd',) + tuple(a.val for a in args), origin=origin)
                 return AV('datetime', val='midnight' if len(args) == 3 or txt.endswith('combine') else None, origin=origin)
-            if txt == 're.compile' and node.args and isinstance(node.args[0], ast.Constant) and isinstance(node.args[0].value, str):
-                import re as _re
-                flags = 0
-                for fl in node.args[1:] + [k.value for k in node.keywords if k.arg == 'flags']:
-                    for nm in ast.walk(fl):
-                        if isinstance(nm, ast.Attribute) and hasattr(_re, nm.attr):
-                            flags |= getattr(_re, nm.attr)
-                return AV('regex', val=('regex', node.args[0].value, flags))
-            if txt == 're.findall' and len(node.args) >= 2 and isinstance(node.args[0], ast.Constant) and isinstance(node.args[0].value, str):
-                subj = self.ev(node.args[1], env)
-                if not isinstance(subj.val, str):
-                    raise Unknown('findall on a text without a concrete carrier')
-                import re as _re
-                found = _re.findall(node.args[0].value, subj.val)
-                return AV('list', items=tuple(const_av(x if isinstance(x, str) else x[0]) for x in found))
-            if txt in ('re.match', 're.fullmatch', 're.search') and len(node.args) >= 2 and isinstance(node.args[0], ast.Constant) and \
-                    isinstance(node.args[0].value, str):
-                subj = self.ev(node.args[1], env)
-                if subj.kind != 'str':
-                    raise AbsRaise('TypeError', 'expected string')
-                if not isinstance(subj.val, str):
-                    raise Unknown('regex on a text without a concrete carrier')
-                import re as _re
-                flags = 0
-                for fl in node.args[2:] + [k.value for k in node.keywords if k.arg == 'flags']:
-                    for nm in ast.walk(fl):
-                        if isinstance(nm, ast.Attribute) and hasattr(_re, nm.attr):
-                            flags |= getattr(_re, nm.attr)
-                m_ = getattr(_re, txt[3:])(node.args[0].value, subj.val, flags)
-                return AV('other', val=('match', txt)) if m_ else AV('none')
+            if txt in ('re.compile', 're.findall', 're.match', 're.fullmatch', 're.search', 're.sub', 're.split', 're.finditer') and node.args:
+                pat_, flags_ = self._pattern(node.args[0], env)
+                rest_ = node.args[1:]
+                nflag_ = {'re.compile': 0, 're.sub': 3, 're.split': 2}.get(txt, 1)       # position of the flags argument after the pattern
+                for fl in rest_[nflag_:] + [k.value for k in node.keywords if k.arg == 'flags']:
+                    flags_ |= self._regex_flags(fl)
+                if txt == 're.compile':
+                    return AV('regex', val=('regex', pat_, flags_))
+                return self._regex_call(txt[3:], pat_, flags_, [self.ev(x, env) for x in rest_[:nflag_]])
             recv = self.ev(f.value, env)
             if self.is_box(recv):
                 recv = self.unbox(recv)
@@ -1343,22 +1526,24 @@ class Evaluator:
                 return AV('list', items=tuple(const_av(x) for x in recv.val.split(sep_.val if sep_ is not None else None)))
             if recv.kind == 'str' and isinstance(recv.val, str) and f.attr in ('upper', 'lower', 'strip', 'lstrip', 'rstrip') and not node.args:
                 return const_av(getattr(recv.val, f.attr)())
-            if recv.kind == 'regex' and f.attr == 'findall' and node.args:
-                subj = self.ev(node.args[0], env)
-                if not isinstance(subj.val, str):
-                    raise Unknown('findall on a text without a concrete carrier')
-                import re as _re
-                found = _re.compile(recv.val[1], recv.val[2]).findall(subj.val)
-                return AV('list', items=tuple(const_av(x if isinstance(x, str) else x[0]) for x in found))
-            if recv.kind == 'regex' and f.attr in ('match', 'fullmatch', 'search') and node.args:
-                subj = self.ev(node.args[0], env)
-                if subj.kind != 'str':
-                    raise AbsRaise('TypeError', 'expected string')
-                if not isinstance(subj.val, str):
-                    raise Unknown('regex on a text without a concrete carrier')
-                import re as _re
-                m_ = getattr(_re.compile(recv.val[1], recv.val[2]), f.attr)(subj.val)
-                return AV('other', val=('match', f.attr)) if m_ else AV('none')
+            if recv.kind == 'regex' and f.attr in ('findall', 'match', 'fullmatch', 'search', 'sub', 'split', 'finditer') and node.args:
+                return self._regex_call(f.attr, recv.val[1], recv.val[2], [self.ev(x, env) for x in node.args])
+            if recv.kind == 'regex' and f.attr == 'pattern':
+                return const_av(recv.val[1])
+            if recv.kind == 'other' and isinstance(recv.val, tuple) and recv.val[0] == 'match' and len(recv.val) == 3:
+                m_ = recv.val[2]
+                args_ = [self.ev(x, env) for x in node.args]
+                kw_ = {k.arg: self.ev(k.value, env) for k in node.keywords if k.arg}
+                if not all(a_.kind == 'none' or (a_.val is not None and not isinstance(a_.val, tuple)) for a_ in args_ + list(kw_.values())):
+                    raise Unknown('a match method with arguments of unknown value')
+                plain_ = [None if a_.kind == 'none' else a_.val for a_ in args_]
+                kwp_ = {k_: (None if a_.kind == 'none' else a_.val) for k_, a_ in kw_.items()}
+                if f.attr in ('group', 'groups', 'start', 'end', 'span', 'groupdict'):
+                    try:
+                        r_ = getattr(m_, f.attr)(*plain_, **kwp_)
+                    except (IndexError, TypeError) as e_:
+                        raise AbsRaise(type(e_).__name__, str(e_))
+                    return self._from_python(r_)
             if recv.kind == 'str' and f.attr in ('startswith', 'endswith') and isinstance(recv.val, str) and len(node.args) == 1:
                 a0 = self.ev(node.args[0], env)
                 if isinstance(a0.val, str):
